@@ -1,6 +1,6 @@
 (* Properties/C03.v -- Guaranteed Reed-Solomon correction capacity (what is a theorem so far). *)
 From Coq Require Import Arith NArith List Bool.
-From DM Require Import Generated.Symbols Spec.GF256 Spec.RSCode Model.Outcome Model.RSEnc Model.RSDec Proofs.RSDecProofs.
+From DM Require Import Generated.Symbols Spec.GF256 Spec.Poly Spec.RSCode Model.Outcome Model.RSEnc Model.RSDec Proofs.SymbolListProofs Proofs.RSDecProofs Proofs.MinDistance.
 Import ListNotations.
 
 (* weight 0: every codeword vector of every size passes through the decoder unchanged *)
@@ -18,12 +18,37 @@ Theorem C03_success_is_codeword : forall s cw c',
 Proof. intros s cw c' L B H. exact (proj2 (proj2 (proj2 (decode_success_codeword s cw c' L B H)))). Qed.
 Print Assumptions C03_success_is_codeword.
 
+(* the mathematical guarantee behind "correction capacity" (BCH bound, proved here for the code of Spec/RSCode.v):
+   a block with vanishing syndromes and at most k non-zero positions is zero; two codeword blocks that differ in at
+   most k positions are equal; so within distance t <= floor(k/2) of ANY received block there is at most one codeword --
+   whatever a decoder returns as a codeword within that distance IS the transmitted one *)
+Theorem C03_bch_bound : forall k w, (length w <= 255)%nat -> block_ok k w -> (weight w <= k)%nat -> Forall (fun c => c = F0) w.
+Proof. exact bch_bound. Qed.
+Print Assumptions C03_bch_bound.
+
+Theorem C03_min_distance : forall k w1 w2, length w1 = length w2 -> (length w1 <= 255)%nat ->
+  block_ok k w1 -> block_ok k w2 -> (distance w1 w2 <= k)%nat -> w1 = w2.
+Proof. exact min_distance. Qed.
+Print Assumptions C03_min_distance.
+
+Theorem C03_unique_within_radius : forall k t r w1 w2, (2 * t <= k)%nat ->
+  length w1 = length r -> length w2 = length r -> (length r <= 255)%nat ->
+  block_ok k w1 -> block_ok k w2 -> (distance w1 r <= t)%nat -> (distance w2 r <= t)%nat -> w1 = w2.
+Proof. exact unique_within_radius. Qed.
+Print Assumptions C03_unique_within_radius.
+
+(* every block of every symbol size is short enough for the bound: ceil(data / B) + k <= 255 *)
+Theorem C03_block_lengths : forall s,
+  ((num_data_codewords s + num_ecc_blocks s - 1) / num_ecc_blocks s + num_ecc_per_block s <= 255)%N.
+Proof. intros s. apply N.leb_le. exact (sweep (fun s => ((num_data_codewords s + num_ecc_blocks s - 1) / num_ecc_blocks s + num_ecc_per_block s <=? 255)%N) eq_refl s). Qed.
+Print Assumptions C03_block_lengths.
+
 (* NOT theorems: (a) completeness -- that up to floor(k/2) errors per block are always repaired -- is the
    correctness of the Schmidt-Fettweis Levinson-Durbin recursion with its singular-case step and of the
-   Bjoerck-Pereyra solver; (b) that a successful result within the radius is the ORIGINAL codeword (needs the
-   minimum-distance bound for arbitrary positions).  Both are covered by fault enumeration in the check:
-   every weight 0..t, every region of every block of all 48 sizes, every single position, and the same
-   damage applied to rendered modules. *)
+   Bjoerck-Pereyra solver; (b) that the decoder never alters more than floor(k/2) positions of a block (with (b), C09
+   and C03_unique_within_radius a successful result would be proved to be the original codeword).  Both are
+   covered by fault enumeration in the check: every weight 0..t, every region of every block of all 48 sizes, every
+   single position, and the same damage applied to rendered modules. *)
 Example C03_example :
   RSDec.decode [23; 40; 11; 0; 207; 37; 0; 81]%N Square10 = Ok [23; 40; 11; 255; 207; 37; 244; 81]%N.
 Proof. vm_compute. reflexivity. Qed.
